@@ -86,12 +86,13 @@ theorem c02_counterexample_int_overflow :
     (runFrom .real Wit.driftIntLiteral 100 (fun _ => []) 2 (Wit.init Wit.driftIntLiteral)).store.vars
       = [("c", .i .dint 32768)] := by decide +kernel
 
-/-- **Counterexample (`RETURN` in a PROGRAM).**  Reference: early exit, cycle completes with
-`x = 1`; implementation: `InvalidControlFlow`. -/
-theorem c02_counterexample_return :
-    Spec.typed Wit.returnInProgram = true ∧
+/-- **Regression fact (`RETURN` in a PROGRAM, fixed in f3b5b76).**  Reference and implementation
+agree: early exit, the cycle completes with `x = 1` — and the program is inside the guard, so
+`c02_refines_partial` covers it. -/
+theorem c02_return_in_program_agrees :
+    Strict Wit.returnInProgram = true ∧
     Spec.cycle Wit.returnInProgram 100 (Spec.initEnv Wit.returnInProgram) = ([("x", .n 1)], none) ∧
-    (Wit.firstCycle Wit.returnInProgram).1 = some (.fault .InvalidControlFlow .programFlow) := by
+    Wit.firstCycle Wit.returnInProgram = (none, [("x", .i .dint 1)]) := by
   decide +kernel
 
 /-- **Counterexample (`ULINT as i64` in FOR bounds).**  Reference: three iterations, `n = 3`;
@@ -103,13 +104,12 @@ theorem c02_counterexample_for_ulint :
     (Wit.firstCycle Wit.forUlintCast).1 = some (.fault .TypeMismatch .forCoerceNegative) := by
   decide +kernel
 
-/-- The repairs modelled by `Cfg` remove these three disagreements (what the oracle uses to
-attribute a mismatch to a recorded finding): literal lowering to the checker's type, `RETURN` as
-early exit, exact FOR bounds. -/
+/-- The repairs modelled by `Cfg` remove these two disagreements (what the oracle uses to
+attribute a mismatch to a recorded finding): literal lowering to the checker's type, exact FOR
+bounds. -/
 theorem c02_repairs_remove_the_counterexamples :
     reportAt { litSmallest := true } Wit.driftIntLiteral 100 (fun _ => []) 1 (Wit.init Wit.driftIntLiteral)
       = some (.fault .Overflow .narrow) ∧
-    (cycle { returnOk := true } Wit.returnInProgram 100 (Wit.init Wit.returnInProgram)).2 = none ∧
     (cycle { forExact := true } Wit.forUlintCast 100 (Wit.init Wit.forUlintCast)).2 = none := by
   decide +kernel
 
